@@ -73,6 +73,9 @@ def rk_dyn(eng, st, pre):
     return VDyn(fresh('res', t.VAL))
 
 
+USE_LOG = set()      # contracts applied at call sites since the log was last cleared (dependency closure of a proof)
+
+
 class FnContract:
     def __init__(self, qual, cases, requires=None, loops=None, setup=None, tags=(), doc='', stream_models=('bytesio',),
                  pure=False, self_fields=None, lemmas=()):
@@ -138,6 +141,7 @@ class FnContract:
 
     # ------------------------------------------------------------------ USE
     def use(self, eng, st, selfv, args, kws):
+        USE_LOG.add(self.qual)
         node = eng.src.find(self.qual)
         bound = self.bind(eng, node, selfv, args, kws, st)
         if not self.generic and self.qual in GENERIC and 'bytesio' in self.stream_models and 'adv' not in self.stream_models:
